@@ -96,6 +96,14 @@ def main():
                        ('12', '3', '1', '23'), ('é', 'é', 'éé', ''), ('1', '1:1', '1:1', '1')]:
         check(pd.DataFrame({'x': [a, c, a], 'y': [b, d, b], 'label': ['0', '1', '0']}), 2, 10, tag='alias')
         check(pd.DataFrame({'x': [a, c, a], 'y': [b, d, b], 'label': ['0', '1', '0']}), 2, 10, is_3mr=True, tag='alias3mr')
+    # values that are canonically equivalent under Unicode normalisation but different strings (composed / decomposed accents,
+    # ANGSTROM SIGN vs A WITH RING, ligature vs letters, full-width digits) are different values
+    equiv = ['\u00e9', 'e\u0301', '\u212b', '\u00c5', 'A\u030a', '\ufb01', 'fi', '\uff11', '1']
+    for order in (2, 3):
+        dfe = pd.DataFrame({'x': equiv, 'y': ['k'] * len(equiv), 'z': equiv[::-1], 'label': [str(i % 2) for i in range(len(equiv))]})
+        check(dfe, order, 1000, tag='unicode-equivalents')
+    check(pd.DataFrame({'x': equiv, 'y': ['k'] * len(equiv), 'label': [str(i % 2) for i in range(len(equiv))]}), 2, 10, is_3mr=True,
+          tag='unicode-equivalents-3mr')
     # 2. random frames, orders 2..4, caps
     for case in range(25 if quick else 300):
         ncols = int(rng.integers(2, 6))
